@@ -2,7 +2,8 @@
    public key part of Model/Ecdsa.v) on the inputs the harness gave to
    GeneratePrivateKey / DecodePrivateKey / PublicKey and compares every observable. *)
 From Coq Require Import ZArith NArith List String Bool.
-From V Require Import Lib.Hex Lib.BytesZ Spec.HkdfSpec Spec.KeygenSpec Prim.EcdsaCurve Model.Keygen Model.Ecdsa.
+From Bignums Require Import BigZ.
+From V Require Import Lib.Hex Lib.BytesZ Lib.Num Prim.Bls12 Spec.ZcashCodec Spec.HkdfSpec Spec.KeygenSpec Prim.EcdsaCurve Model.Keygen Model.Ecdsa.
 Import ListNotations.
 Open Scope Z_scope.
 
@@ -31,6 +32,30 @@ Definition pk_matches (c : case) (xy : Z * Z) : bool :=
   | EmptyString => true
   | s => bytes_eqb (hex s) (pk_bytes xy)
   end.
+
+(* kind 2 (BLS): c_in is the concatenation of 32-byte private scalars; the key under test is the
+   decoded key (one scalar) or AggregateBLSPrivateKeys of the decoded keys, some of which had
+   PublicKey() called before the aggregation; c_sk / c_pk are its Encode() / PublicKey().Encode(),
+   c_sk2 the encoding of a second aggregation after PublicKey() was called on every input.
+   Expected: scalar = sum mod r, public key = [scalar] g2 (implementation byte order). *)
+Fixpoint chunks32 (fuelc : nat) (b : list N) : list (list N) :=
+  match fuelc with
+  | O => []
+  | S f => match b with [] => [] | _ => firstn 32 b :: chunks32 f (skipn 32 b) end
+  end.
+Definition bls_sum (inp : list N) : Z :=
+  fold_left (fun acc ch => (acc + os2ip ch) mod spec_r) (chunks32 (List.length inp) inp) 0.
+Definition to_pt2_12 (P : Bls12.jpt (F:=Bls12.fp2 (T:=bigZ))) : pt2 :=
+  match Bls12.to_affine (Bls12.Fp2Ops BNum pB) P with
+  | None => Inf2
+  | Some ((x0, x1), (y0, y1)) => Aff2 (BigZ.to_Z x0) (BigZ.to_Z x1) (BigZ.to_Z y0) (BigZ.to_Z y1)
+  end.
+Definition bls_pk_bytes (k : Z) : list N :=
+  g2_encode false (to_pt2_12 (Bls12.jmul (Bls12.Fp2Ops BNum pB) k (Bls12.G2gen BNum pB))).
+Definition blspk_ok (c : case) : bool :=
+  let k := bls_sum (hex (c_in c)) in
+  c_ok c && bytes_eqb (hex (c_sk c)) (i2osp 32 k) && bytes_eqb (hex (c_sk2 c)) (i2osp 32 k) && c_idem c &&
+  bytes_eqb (hex (c_pk c)) (bls_pk_bytes k).
 
 Definition rejected_invalid (c : case) : bool := negb (c_ok c) && c_invalid c.
 
@@ -61,6 +86,7 @@ Definition check (c : case) : bool :=
       | KErr e => (e =? Keygen.E_INVALID_INPUT)%N && rejected_invalid c
       | _ => false
       end
+  | 2%N, ABls => blspk_ok c
   | _, ABls => false
   | _, a =>
       let O := ops_of (curve_of a) in
@@ -111,6 +137,7 @@ Definition prop_check (c : case) : bool :=
         | None => false
         end
       else rejected_invalid c
+  | 2%N => match c_alg c with ABls => blspk_ok c | _ => false end
   | _ =>
       match c_alg c with
       | ABls => true
